@@ -18,6 +18,7 @@ pub mod c13;
 pub mod c14;
 pub mod c16;
 pub mod c17;
+pub mod c18;
 pub mod c19;
 pub mod c20;
 pub mod c15;
@@ -50,6 +51,7 @@ pub fn meta(id: &str) -> Option<Meta> {
         "C15" => c15::meta(),
         "C16" => c16::meta(),
         "C17" => c17::meta(),
+        "C18" => c18::meta(),
         "C19" => c19::meta(),
         "C20" => c20::meta(),
         _ => return None,
@@ -85,6 +87,7 @@ pub fn run_worker(id: &str, ctx: &Ctx, rep: &mut Report) {
         "C15" => c15::run(ctx, rep),
         "C16" => c16::run(ctx, rep),
         "C17" => c17::run(ctx, rep),
+        "C18" => c18::run(ctx, rep),
         "C19" => c19::run(ctx, rep),
         "C20" => c20::run(ctx, rep),
         _ => rep.machinery(format!("no engine for {id}")),
@@ -100,6 +103,11 @@ pub fn run_parent(id: &str, tier: Tier, seed: u64) -> Report {
             let dir = crate::scratch::path("c19subjects");
             c19::prepare(tier, seed, &dir);
             crate::explore::run_sharded(id, &dir, tier, seed, p.cap_s, p.shards, None)
+        }
+        "C18" => {
+            let mut rep = crate::explore::run_sharded(id, "", tier, seed, p.cap_s, p.shards, None);
+            c18::finish(&mut rep);
+            rep
         }
         _ => crate::explore::run_sharded(id, "", tier, seed, p.cap_s, p.shards, None),
     }
@@ -120,6 +128,7 @@ pub fn replay(id: &str, case: &serde_json::Value) -> Result<Option<String>, Stri
         "C14" => c14::replay(case),
         "C16" => c16::replay(case),
         "C17" => c17::replay(case),
+        "C18" => c18::replay(case),
         "C19" => c19::replay(case),
         "C20" => c20::replay(case),
         _ => Err(format!("engine {id} has no single-case replay; rerun the check")),
